@@ -231,6 +231,89 @@ theorem epoch_roundtrip (y day8 : Nat) (h1 : 100000000 ≤ day8)
 
 example : (100000000 : Nat) ≤ 26451782528 ∧ 26451782528 < (if isLeap 2008 then 367 else 366) * 100000000 := by decide
 
+/-! ## Clauses 1 and 2 (drag terms) — the decimal-point-assumed notation round-trips -/
+
+/-- **`_float(_unfloat(x)) = x` and `_unfloat(_float(text)) = text`** on every (sign, mantissa, exponent) triple of the
+notation: for a five-digit mantissa `10000 ≤ m5 ≤ 99999`, either sign and EVERY exponent, the written field is read
+back as exactly `± 0.m5 · 10^exp`; and (exponent ≥ -9, the range of the one-column exponent) that value is written
+again as the same triple. -/
+theorem unfloat_float_id (neg : Bool) (m5 : Nat) (exp : Int) (h1 : 10000 ≤ m5) (h2 : m5 < 100000) :
+    tleFloat (unfloat (.val neg m5 exp)) = .ok ⟨neg, m5, 5 - exp⟩ ∧
+    (-9 ≤ exp → toUnfl ⟨neg, m5, 5 - exp⟩ = .val neg m5 exp) := by
+  constructor
+  · have hlen : (natStr m5).length = 5 := natStr_length_eq 4 m5 h1 h2
+    obtain ⟨c0, hc0, t0, ht0⟩ := natStr_head m5
+    obtain ⟨dz, hdz, hlast⟩ := natStr_last exp.natAbs
+    -- the written field
+    have hu : unfloat (.val neg m5 exp) =
+        (if neg then ['-'] else []) ++ natStr m5 ++ ((if exp < 0 then '-' else '+') :: natStr exp.natAbs) := by
+      simp only [unfloat]; by_cases he : exp < 0 <;> simp [he]
+    generalize hsep : (if exp < 0 then '-' else '+' : Char) = sep at hu
+    have hsep' : sep = '+' ∨ sep = '-' := by subst hsep; split <;> simp
+    have hstrip : strip (unfloat (.val neg m5 exp)) = unfloat (.val neg m5 exp) := by
+      rw [hu]
+      have hz : ((if neg then ['-'] else []) ++ natStr m5 ++ sep :: natStr exp.natAbs)[((if neg then ['-'] else []) ++ natStr m5 ++ sep :: natStr exp.natAbs).length - 1]? = some (digitChar dz) := by
+        have hp := natStr_length_pos exp.natAbs
+        rw [List.getElem?_append_right (by simp; omega)]
+        simp only [List.length_append, List.length_cons]
+        rw [show (List.length (if neg then ['-'] else []) + (natStr m5).length + ((natStr exp.natAbs).length + 1) - 1 - (List.length (if neg then ['-'] else []) + (natStr m5).length)) = ((natStr exp.natAbs).length - 1) + 1 by omega]
+        simpa using hlast
+      cases neg with
+      | true => exact strip_of_ends (a := '-') (by simp) hz (by decide) (isWs_digitChar hdz)
+      | false => exact strip_of_ends (a := c0) (by simp [ht0]) hz (isWs_of_isDigit hc0) (isWs_digitChar hdz)
+    have hscale : (if sep = '-' then ((natStr m5).length : Int) + exp.natAbs else ((natStr m5).length : Int) - exp.natAbs) = 5 - exp := by
+      rw [hlen]; subst hsep
+      by_cases he : exp < 0
+      · simp [he]; omega
+      · simp [he]; omega
+    unfold tleFloat
+    rw [hstrip, hu]
+    have hdig := isDigit_not_sign hc0
+    cases neg with
+    | true =>
+      simp only [if_true, List.cons_append, List.nil_append, Bool.true_or, decide_true]
+      rw [tleFloatSigned_core '-' sep m5 exp.natAbs (Or.inr rfl) hsep', hscale]
+      simp
+    | false =>
+      simp only [Bool.false_eq_true, if_false, List.nil_append]
+      rw [ht0]
+      simp only [List.cons_append]
+      have hc0' : (decide (c0 = '-') || decide (c0 = '+')) = false := by simp [hdig.1, hdig.2.1]
+      simp only [hc0', Bool.false_eq_true, if_false]
+      rw [← List.cons_append, ← ht0, tleFloatSigned_core '+' sep m5 exp.natAbs (Or.inl rfl) hsep', hscale]
+      simp
+  · intro he
+    unfold toUnfl
+    have hm : ¬ m5 = 0 := by omega
+    simp only [hm, if_false]
+    have hs : sig5 m5 = (m5, 0) := by
+      unfold sig5
+      rw [if_neg (by omega), if_pos h2]
+    rw [hs]
+    simp only
+    rw [if_neg (by omega)]
+    congr 1; omega
+
+
+/-- the single rendering of zero, `00000-0`, is read as zero and written again as itself -/
+theorem unfloat_float_zero : tleFloat (unfloat .zero) = .ok ⟨false, 0, 5⟩ ∧ toUnfl ⟨false, 0, 5⟩ = .zero := by
+  constructor
+  · rfl
+  · rfl
+
+/-- **`_float(_unfloat(x)) = x`** for every value with a five-digit mantissa and an exponent the single column holds
+(`x = ± 0.m5 · 10^(5 - scale)`, `5 - scale ≥ -9`) -/
+theorem float_unfloat_id (neg : Bool) (m5 : Nat) (scale : Int) (h1 : 10000 ≤ m5) (h2 : m5 < 100000) (hs : scale ≤ 14) :
+    tleFloat (unfloat (toUnfl ⟨neg, m5, scale⟩)) = .ok ⟨neg, m5, scale⟩ := by
+  obtain ⟨hr, hw⟩ := unfloat_float_id neg m5 (5 - scale) h1 h2
+  have e : (5 : Int) - (5 - scale) = scale := by omega
+  rw [e] at hr hw
+  rw [hw (by omega), hr]
+
+example : tleFloat "-11606-4".toList = .ok ⟨true, 11606, 9⟩ ∧ unfloat (.val true 11606 (-4)) = "-11606-4".toList := by
+  constructor <;> rfl
+
+
 /-! ## Clause 4 — a multi-TLE text yields exactly its valid entries
 
 (`from_string_yields_valid_entries` was `…_partial` — entries whose lines kept their numbers only — until the
